@@ -51,6 +51,10 @@ def make_tail(rng, kind):
         return t + rng.choice(["é", "€", "𝄞"]).encode()[:-1]
     if kind == "nul":
         return b"\0" * rng.randint(1, 400)
+    if kind == "late-binary":
+        # undecodable bytes only after more than one 8 kB chunk of text
+        return (b"padding line\n" * rng.randint(700, 1500)) + \
+            bytes(rng.randrange(128, 256) for _ in range(40))
     if kind == "long-run":
         n = rng.choice([100_000, 250_000])
         return (b"Q" * n) + bytes([0xFF, 0xFE]) + b"\x00\x01"
@@ -64,7 +68,7 @@ def make_tail(rng, kind):
 
 
 TAILS = ["none", "binary", "high", "utf8", "utf8-cut", "nul", "pvl-like",
-         "pvl-like-broken", "long-run", "long-run-utf8"]
+         "pvl-like-broken", "late-binary", "long-run", "long-run-utf8"]
 
 
 def describe(o):
@@ -122,7 +126,8 @@ class C09(Property):
         "probe.non-seekable", "probe.pre-advanced", "probe.oserror-injected",
         "probe.short-reads", "probe.non-ascii-label", "probe.dump-text-stream",
         "probe.dump-binary-stream", "probe.dump-path", "probe.dump-enospc",
-        "probe.real-file-object"]
+        "probe.real-file-object",
+        "probe.pre-advanced-text-with-late-binary"]
 
     # ---- one load through one entry point
     def load_entry(self, case, entry, knobs, st):
@@ -217,8 +222,7 @@ class C09(Property):
                 raw_sig="%s|%s|%s%s%s%s" % (
                     cls, entry, "/".join(str(x) for x in got[:2])
                     if got[0] != "ok" else "ok",
-                    "|non-seekable" if knobs.get("pipe") else "",
-                    "|pre-advanced" if case.get("header") else "", und)))
+                    "|non-seekable" if knobs.get("pipe") else "", "", und)))
 
         injected = knobs.get("fail_at") is not None
         if injected and got == ("exc", "OSError"):
@@ -387,7 +391,7 @@ class C09(Property):
         label = body[:toks[endi[0]].end] if endi else body
         tail_kind = rng.choice(TAILS)
         if tail_kind.startswith("long-run") and rng.random() < 0.6:
-            tail_kind = rng.choice(TAILS[:8])
+            tail_kind = rng.choice(TAILS[:9])
         tail = make_tail(rng, tail_kind)
         seps = ["\n", "\r\n", " ", "\t", ";"] + (
             ["\0"] if cfg == "default" else [])
@@ -430,16 +434,19 @@ class C09(Property):
                     knobs["newline"] = rng.choice(["", "\n"])
                 if entry == "binary-stream" and rng.random() < 0.5:
                     knobs["buffer"] = rng.choice([0, 16, 8192])
-                decodable = True
                 try:
                     data.decode()
-                except UnicodeDecodeError:
-                    decodable = False
-                if rng.random() < 0.2 and (entry == "binary-stream" or
-                                           decodable):
+                    first_bad = None
+                except UnicodeDecodeError as e:
+                    first_bad = e.start
+                if rng.random() < 0.25 and (entry == "binary-stream" or
+                                            first_bad is None or
+                                            first_bad > 8192 + 64):
                     case_h = dict(case, header="HDR %d bytes\n" %
                                   rng.randrange(10 ** 6))
                     out.inc("probe.pre-advanced")
+                    if first_bad is not None and entry == "text-stream":
+                        out.inc("probe.pre-advanced-text-with-late-binary")
                 else:
                     case_h = case
                 out.nontrivial = True
@@ -461,17 +468,24 @@ class C09(Property):
                     knobs["pipe"] = True
                     out.inc("probe.non-seekable")
                     out.inc("fault.non-seekable-stream")
-                decodable = True
+                # a caller can only have read a header off a text stream
+                # if the first chunk the text layer decodes is decodable
                 try:
                     data.decode()
-                except UnicodeDecodeError:
-                    decodable = False
-                if rng.random() < 0.15 and (entry == "binary-stream" or
-                                            decodable):
+                    first_bad = None
+                except UnicodeDecodeError as e:
+                    first_bad = e.start
+                reach = max(knobs.get("chunk") or 8192,
+                            knobs.get("buffer") or 0) + 64
+                can_pre = entry == "binary-stream" or first_bad is None \
+                    or first_bad > reach
+                if rng.random() < 0.2 and can_pre:
                     case_h = dict(case, header="HDR %d bytes\n" %
                                   rng.randrange(10 ** 6))
                     out.inc("probe.pre-advanced")
                     out.inc("fault.pre-advanced-position")
+                    if first_bad is not None and entry == "text-stream":
+                        out.inc("probe.pre-advanced-text-with-late-binary")
                 else:
                     case_h = case
                 if rng.random() < 0.12:
@@ -557,9 +571,11 @@ class C09(Property):
             nl = "\n".join(lines[:j] + lines[j + 1:])
             if not nl.strip():
                 continue
-            ref = describe(dialects.load(case.get("config", "default"), nl))
-            if ref[0] != "ok":
-                continue
+            st0 = chan.ChanStats()
+            ref = describe(dialects.load(case.get("config", "default"), nl,
+                                         chan.make_lexer_fn([], st0)))
+            if ref[0] != "ok" or (tail and not st0.end_seen):
+                continue        # the premise (an END statement) must stay
             yield dict(case, label=nl, data_hex=(nl.encode() + tail).hex(),
                        ref=core.listify(ref))
 
